@@ -16,6 +16,20 @@ P = {
         "Bound: payload values per field alphabet (all values for <= 8-bit fields), not all 2^216 vocoder payloads (weight <= 2 + complements; the splice is position-local). Trusted: C03's ETSI layouts, polynomial Golay / QR references, sync table 9.2 transcribed in the harness.",
         "DESIGN.md §3 C01, §9.2",
     ),
+    "C02": (
+        "model_checking",
+        "complete fault enumeration: every error pattern of weight <= 2 (all 19,307) over the 196 transmitted bits x base codewords, plus all messages of weight <= 2 (3) and complements error-free, on the real encoder/decoder vs. a re-derived 13x15 product-code layout",
+        "Error-free: all messages of weight <= 2 (thorough 3) + complements decode with and without repair and are not altered by repair; rows / columns are multiples of x^4+x+1 in the harness's own layout (index*181 mod 196); encoder linearity on all basis pairs. Faults: all C(196,<=2) patterns on 3 (thorough 102: zero, ones, all 96 unit messages, seed words) base codewords must decode to the original, with a translation-invariance gate across base words.",
+        "Bound: 2^96 messages reduced by linearity (checked to order 2) and decoder translation invariance (checked on every base); error weight <= 2 as the statement says. Trusted: harness layout + polynomial Hamming codes.",
+        "DESIGN.md §3 C02",
+    ),
+    "C09": (
+        "model_checking",
+        "complete enumeration (all 2^11 single-burst messages x both parities; weight <= 2-5 messages + complements; every octet position x all 256 values and octet pairs for the non-linear 5-bit checksum) on the real VBPTC encoders/extractors vs. re-derived column-major layouts",
+        "extract(encode(m)) == m; every data row a word of the polynomial Hamming(16,11,4)/(17,12,3) reference, every column with the required parity; CS5 / CRC-8 read back by the library's own extractor equal the library's and the harness's computation over the message; encode(m) == encode(m||checksum) == encode(deinterleave_all(encode(m))).",
+        "Bound: not all 2^72 / 2^28 messages (CS5 covered per octet and per octet pair, thorough all 256^2 values per pair). Trusted: harness layouts (asserted against the on-air vectors of the repository tests), CS5 and CRC-8 references.",
+        "DESIGN.md §3 C09",
+    ),
     "C03": (
         "model_checking",
         "complete enumeration: all 2^w values of 30 element enumerations, bounded-exhaustive field products of every PDU kind against bit-level ETSI layouts, all 2^25 + 2^24 GPS codes (thorough), arbitrary bit strings of weight <= 1 (2) from every opcode prefix",
